@@ -50,7 +50,7 @@ EXPECTED_PROBES = ['honest_transfer_ok', 'one_byte_fragments', 'header_alone', '
                    'server_closed_hostile', 'closed_by_idle_timeout', 'closed_immediately', 'request_ended_cancelled',
                    'unknown_length_request', 'client_data_received_escape', 'server_data_received_escape', 'recovered_after_net_fault',
                    'honest_transfer_longer_than_idle_timeout', 'race_checked', 'race_two_honest',
-                   'race_liar_during_honest_body']
+                   'race_liar_during_honest_body', 'race_pin', 'race_pin_followup']
 
 MAX = 2 * 1024 * 1024
 SERVER_CATALOGUE = ['wrong_hash', 'length_short', 'length_long', 'length_zero', 'length_negative', 'length_huge', 'length_string',
@@ -178,6 +178,16 @@ def gen(run_seed, tier):
                        'second_after': round(r4.choice([0.0, 0.05, 0.3, 0.6, 0.9, r4.random()]), 3),
                        'second_delay': r4.choice([0.0, 0.0, 0.0005, 0.002, 0.01]),
                        'second_start': r4.choice(['early', 'early', 'late'])}]}
+        r5 = stream('C10.gen.race_pin', run_seed)
+        if r5.random() < 0.3:
+            # the liar speaks FIRST (wrong length, then silence), the honest request starts while the lie is in place,
+            # and the liar's connection is dropped while the honest writer is still open.  The honest transfer of that
+            # moment may fail (its header contradicts the lie); what must hold is that nothing is poisoned: a later
+            # honest request gets the blob
+            sc['ops'][0].update(behaviour='pin_length', know_length=False, pin={
+                'honest_after': r5.choice([0.0, 0.0, 0.001, 0.01]), 'drop': r5.choice(['on_honest_request', 'on_honest_request',
+                                                                                      'on_honest_header', 'timeout']),
+                'delta': r5.choice([1, -1, 7, 50])})
     return sc
 
 
@@ -691,7 +701,7 @@ def execute(scenario, keep_trace=False):
             t, r, n = self.transport, self.r, len(content)
             if t is None:
                 return
-            if beh != 'honest' and self.op.get('op') == 'race':
+            if beh != 'honest' and self.op.get('op') == 'race' and beh != 'pin_length':
                 await state['race_go'].wait()       # see race_session: a liar speaks once the honest header is in
                 await asyncio.sleep(self.op.get('second_delay', 0.0))
                 t = self.transport
@@ -780,6 +790,13 @@ def execute(scenario, keep_trace=False):
                     self.transport.write(self.header(h, n) + content)
             elif beh == 'no_reply':
                 return
+            elif beh == 'pin_length':
+                pin = self.op.get('pin', {})
+                t.write(self.header(h, max(1, n + int(pin.get('delta', 1)))) + content[:int(p * n)])
+                if pin.get('drop') != 'timeout':
+                    await state['race_drop'].wait()
+                    if self.transport is not None:
+                        net.reset(self.transport)
             elif beh == 'not_available':
                 t.write(json.dumps({'available_blobs': [], 'blob_data_payment_rate': 'RATE_ACCEPTED',
                                     'incoming_blob': {'error': 'BLOB_UNAVAILABLE'}}).encode())
@@ -890,12 +907,34 @@ def execute(scenario, keep_trace=False):
         net.observers.append(progress)
         state['judged'] += 1
         t0 = loop.time()
+        pin = op.get('pin') if op['behaviour'] == 'pin_length' else None
+        lie_in = asyncio.Event()
+        state['race_drop'] = asyncio.Event()
+
+        class PinWatch:
+            def on_deliver(self, transport, chunk):
+                peer = getattr(transport, 'peername', (None,))[0]
+                if peer == HOSTILE_IP:
+                    lie_in.set()                    # the liar's header has been handed to the client
+                elif peer == SERVER_IP and pin and pin.get('drop') == 'on_honest_header':
+                    loop.call_soon(state['race_drop'].set)
+
+            def on_write(self, transport, data):
+                if pin and pin.get('drop') == 'on_honest_request' and getattr(transport, 'peername', (None,))[0] == SERVER_IP:
+                    state['race_drop'].set()        # the honest request is out: its writer is registered on the blob
+        watch = PinWatch()
+        if pin:
+            net.observers.append(watch)
+            run.probes['race_pin'] += 1
 
         async def first():
+            if pin:
+                await lie_in.wait()
+                await asyncio.sleep(pin.get('honest_after', 0.0))
             return await request_blob(loop, blob, SERVER_IP, PORT, T['connect'], T['download'])
 
         async def second():
-            if op['behaviour'] == 'honest' or op.get('second_start') == 'early':
+            if op['behaviour'] == 'honest' or op.get('second_start') == 'early' or pin:
                 # two honest peers neck and neck; or a liar that is asked at the same time (both requests start with
                 # the length unknown) and answers later
                 await asyncio.sleep(op.get('second_delay', 0.0))
@@ -929,7 +968,26 @@ def execute(scenario, keep_trace=False):
                     t.result()[1].close()
         await asyncio.sleep(0.5)
         net.observers.remove(progress)
+        state['race_drop'].set()
+        if pin:
+            net.observers.remove(watch)
         srv.close()
+        if pin and not blob.get_is_verified():
+            # never poisoned: the same client, asking the honest server again, gets the blob
+            run.probes['race_pin_followup'] += 1
+            if blob.get_length() is not None and blob.get_length() != n:
+                run.probes['race_pin_lie_still_in_place'] += 1
+            try:
+                _n, proto2 = await asyncio.wait_for(request_blob(loop, blob, SERVER_IP, PORT, T['connect'], T['download']),
+                                                    T['connect'] + 2 * T['download'] + 5.0)
+                if proto2 is not None:
+                    proto2.close()
+            except asyncio.CancelledError:
+                if asyncio.current_task().cancelling():
+                    raise
+            except asyncio.TimeoutError:
+                pass
+            await asyncio.sleep(0.5)
         data = file_state(node, h)
         status = be.blob_status_map(node['dirs'].db_path).get(h)
         run.ev('race', op['behaviour'], outcomes, round(loop.time() - t0, 4), bool(blob.get_is_verified()),
